@@ -6,7 +6,7 @@
     semantics.  At level 0 [Program::optimize] returns the parsed program unchanged.  Levels
     1..3 are decided per program by translation validation (see DESIGN.md). *)
 From Coq Require Import ZArith List Bool.
-From HPBF Require Import Cell IO BF Expr IR Parse BigStepProofs Level0Proofs.
+From HPBF Require Import Cell IO BF Expr IR Parse BigStepProofs Level0Proofs Level0Back.
 Import ListNotations.
 Open Scope Z_scope.
 
@@ -26,6 +26,15 @@ Theorem C01_level0_states : forall w e src p f o, 0 <= w ->
   exists blk fi o', parse w src = POk blk /\ ir_run w e false 0 fi blk = o' /\ same_events o o'.
 Proof. exact level0_correct. Qed.
 
+(** conversely (cell width >= 1): whenever the IR interpreter ends on the parser's output, the
+    canonical run ends the same way with the same events — so at level 0 the two runs agree
+    whenever either of them ends *)
+Theorem C01_level0_converse : forall w e src p blk fi o', 1 <= w ->
+  ast_of_source src = Some p -> parse w src = POk blk ->
+  ir_run w e false 0 fi blk = o' -> iterminal o' ->
+  exists f o, bf_exec w e f p bf0 = o /\ terminal o /\ same_events o o'.
+Proof. exact level0_backward. Qed.
+
 (** the hypotheses are satisfiable by a program that exercises delayed increments, a moving loop,
     a [-]-like loop, input and output:  ,[->++<]>.[-]<+[>]  on input "!" *)
 Definition demo_src : list Z := [44; 91; 45; 62; 43; 43; 60; 93; 62; 46; 91; 45; 93; 60; 43; 91; 62; 93].
@@ -37,3 +46,4 @@ Proof. eexists. split; [vm_compute; reflexivity|]. split; vm_compute; [exact I|r
 
 Print Assumptions C01_level0.
 Print Assumptions C01_level0_states.
+Print Assumptions C01_level0_converse.
